@@ -305,7 +305,8 @@ func Round(ctx *expr.Context, input system.Collection, args ...expr.Expression) 
 	// Rounding number
 	switch value.(type) {
 	case system.Decimal:
-		res, _ := input[0].(system.Decimal)
+		// (the converted value: the input may be a FHIR decimal element)
+		res, _ := value.(system.Decimal)
 		result := res.Round(precision)
 		return system.Collection{result}, nil
 	case system.Integer:
